@@ -206,31 +206,61 @@ def solve_one(args):
     # first with the relevant hypotheses only (sound for proving, and far more
     # robust: fewer quantifiers to instantiate); only `unsat` is accepted from it
     if len(hyp_blocks) == len(hyp_syms) and rec['kind'] != 'canary' and opts.get('relevance', True):
-        sel_idx = relevant(hyp_syms, goal_syms)
-        if len(sel_idx) < len(hyp_blocks):
+        tried_sizes = set()
+        for rounds, sd in ((3, seed), (1, seed), (2, seed + 7)):
+            sel_idx = relevant(hyp_syms, goal_syms, rounds=rounds)
+            if len(sel_idx) >= len(hyp_blocks) or len(sel_idx) in tried_sizes:
+                continue
+            tried_sizes.add(len(sel_idx))
             small = head + ''.join(b for j, b in enumerate(hyp_blocks) if j in sel_idx) \
                 + goal_block + '\n(assert sel!%d)\n' % i
             try:
                 ctx = z3.Context()
                 s_ = z3.Solver(ctx=ctx)
                 s_.from_string(small)
-                s_.set('timeout', max(1000, timeout_ms // 2))
-                s_.set('random_seed', seed)
+                s_.set('timeout', max(1000, timeout_ms // 3))
+                s_.set('random_seed', sd)
                 if str(s_.check()) == 'unsat':
                     rec['seconds'] = round(time.time() - t1, 4)
                     rec['backend'] = 'z3-%s' % z3.get_version_string()
                     rec['reason'] = ''
-                    rec['attempts'] = 1
+                    rec['attempts'] = len(tried_sizes)
                     rec['hyps_used'] = '%d of %d' % (len(sel_idx), len(hyp_blocks))
                     rec['result'] = 'proved'
                     return rec
             except z3.Z3Exception:
                 pass
+        # recency: all quantifier-free facts plus the quantified hypotheses of the most recent
+        # part of the path (older states' invariants are usually irrelevant and only feed
+        # the instantiation engine); again only `unsat` is accepted
+        nq = len(hyp_blocks)
+        for frac in (0.6, 0.4):
+            cut = int(nq * frac)
+            small = head + ''.join(b for j, b in enumerate(hyp_blocks) if j >= cut or '(forall' not in b) \
+                + goal_block + '\n(assert sel!%d)\n' % i
+            try:
+                ctx = z3.Context()
+                s_ = z3.Solver(ctx=ctx)
+                s_.from_string(small)
+                s_.set('timeout', max(1000, timeout_ms // 4))
+                s_.set('random_seed', seed)
+                if str(s_.check()) == 'unsat':
+                    rec['seconds'] = round(time.time() - t1, 4)
+                    rec['backend'] = 'z3-%s' % z3.get_version_string()
+                    rec['reason'] = ''
+                    rec['attempts'] = len(tried_sizes) + 1
+                    rec['hyps_used'] = 'recent %.0f%% of %d' % (100 * (1 - frac), nq)
+                    rec['result'] = 'proved'
+                    return rec
+            except z3.Z3Exception:
+                pass
     to = min(timeout_ms, 2000) if rec['kind'] == 'canary' else timeout_ms
-    attempts = [(seed, to)] if rec['kind'] == 'canary' else \
-        [(seed, to), (seed + 1, max(1000, to // 2))]
+    # portfolio: default configuration, then a conservative instantiation threshold
+    # (tames E-matching blow-ups), then another seed
+    attempts = [(seed, to, {})] if rec['kind'] == 'canary' else \
+        [(seed, to, {}), (seed, to, {'smt.qi.eager_threshold': 5.0}), (seed + 1, max(1000, to // 2), {})]
     r, reason, n_att, model = 'unknown', '', 0, None
-    for sd, tmo in attempts:
+    for sd, tmo, params in attempts:
         n_att += 1
         try:
             ctx = z3.Context()
@@ -238,6 +268,8 @@ def solve_one(args):
             s_.from_string(text)
             s_.set('timeout', tmo)
             s_.set('random_seed', sd)
+            for pk, pv in params.items():
+                s_.set(pk, pv)
             r = str(s_.check())
             reason = s_.reason_unknown() if r == 'unknown' else ''
             if r == 'sat':
